@@ -57,7 +57,7 @@ CHECKS = {
          "DESIGN.md §3 C08", "Interleavings at await granularity.",
          "exhaustive call-sequence enumeration against a reference state machine + stateful proptest with a harness-owned scheduler"),
  "C09": ("exploration",
-         "Proptest histories on a real ROUTER with 1..5 peers (raw DEALER/REQ/ROUTER with announced or assigned identities, library DEALER/REQ using the identity option), interleaved peer sends, partial deliveries, recvs, routed sends to live / unknown / oversized / empty / departed targets; inbound prefix must be the true connection's identity, outbound exactly the target's wire grows or nothing does. Peers may announce an empty identity, come back under a fixed identity before their departure was observed, and every history ends with a completeness drain. Peers whose departure only a failing write can reveal: every send addressed to them must return.",
+         "Proptest histories on a real ROUTER with 1..5 peers (raw DEALER/REQ/ROUTER with announced or assigned identities, library DEALER/REQ using the identity option), interleaved peer sends, partial deliveries, recvs, routed sends to live / unknown / oversized / empty / departed targets; inbound prefix must be the true connection's identity, outbound exactly the target's wire grows or nothing does. Peers may announce an empty identity, come back under a fixed identity before their departure was observed, and every history ends with a completeness drain. Peers whose departure only a failing write can reveal: every send addressed to them must return. Adaptive peers announce the big-endian successors of the identity the ROUTER generated last and are followed by anonymous peers: generated identities must stay unique.",
          "DESIGN.md §3 C09", "Unobserved orderly closes are C16's business.",
          "stateful property-based testing (proptest) with wire taps as ground truth"),
  "C10": ("exploration",
@@ -69,7 +69,7 @@ CHECKS = {
          "DESIGN.md §3 C11", "Comparison only at quiescent points.",
          "exhaustive history enumeration + proptest against a reference multiset-prefix model"),
  "C12": ("fault_enumeration",
-         "PUB/XPUB with subscribers under generated back-pressure (accept k bytes then stall, partial writes, resume, never drain, BrokenPipe) while messages around the 128 KiB high-water mark are published: publish never blocks, healthy subscribers miss nothing, slow subscribers' wires stay well-formed order-preserving subsequences, at most HWM + one message is buffered (wire accounting and counting allocator), broken subscribers do not fail the publish. Publishes include repeated and empty frames; a subscriber with an announced identity coming back on a fresh connection (old one idle, stalled, failing or closing around the come-back) must receive everything published after it subscribed. In a third of the cases everybody subscribes to a non-empty topic and half of the publishes do not match (first frame a proper prefix of the subscription, empty, or unrelated): subscribers receive (a subsequence of) the matching publishes only. Frame sizes include 254 / 255 / 256 bytes. On real TCP and IPC endpoints 1..3 subscribers stalled inside their handshake (the slowest possible subscriber) must not keep other subscribers from joining and receiving every publish.",
+         "PUB/XPUB with subscribers under generated back-pressure (accept k bytes then stall, partial writes, resume, never drain, BrokenPipe) while messages around the 128 KiB high-water mark are published: publish never blocks, healthy subscribers miss nothing, slow subscribers' wires stay well-formed order-preserving subsequences, at most HWM + one message is buffered (wire accounting and counting allocator), broken subscribers do not fail the publish. Publishes include repeated and empty frames; a subscriber with an announced identity coming back on a fresh connection (old one idle, stalled, failing or closing around the come-back) must receive everything published after it subscribed. In a third of the cases everybody subscribes to a non-empty topic and half of the publishes do not match (first frame a proper prefix of the subscription, empty, or unrelated): subscribers receive (a subsequence of) the matching publishes only. Frame sizes include 254 / 255 / 256 bytes. On real TCP and IPC endpoints 1..3 subscribers stalled inside their handshake (the slowest possible subscriber) must not keep other subscribers from joining and receiving every publish. Every other subscriber also holds a second, overlapping subscription and must still get each matching publish exactly once.",
          "DESIGN.md §3 C12", "HWM is asynchronous-codec's default (131072).",
          "fault injection (back-pressure) + proptest; wire-tap and heap-accounting oracles"),
  "C13": ("exploration",
@@ -97,7 +97,7 @@ CHECKS = {
          "DESIGN.md §3 C18", "Duplicate binds use literal-IP / ipc endpoints; cases run on one thread.",
          "stateful (model-based) property-based testing on real transports"),
  "C20": ("fault_enumeration",
-         "Real bound sockets with a monitor; 1..4 raw clients stop at enumerated / random byte offsets of greeting+READY and then hold, close or send garbage, while well-behaved clients connect before, during and after and an established peer keeps exchanging; handshakes and exchanges must complete while stallers hold, each failed handshake yields exactly one AcceptFailed, Accepted events equal the well-behaved clients. Garbage at every offset, complete-but-invalid handshakes, a client stalling inside an announced 2^50-byte frame, 70..300 simultaneous stallers, strict rotation over exactly the admitted clients. Clients that are gone before accept() takes them from the backlog (TCP reset with SO_LINGER 0 or orderly close, with no await after connect) count as failed handshakes like any other. The monitor is installed before the bind, after it, or replaced after it. Complete-but-invalid handshakes include a READY with garbage after an intact Socket-Type property. A refused handshake (incompatible or unknown Socket-Type) may present the announced identity of the ESTABLISHED peer, which must stay registered and keep exchanging.",
+         "Real bound sockets with a monitor; 1..4 raw clients stop at enumerated / random byte offsets of greeting+READY and then hold, close or send garbage, while well-behaved clients connect before, during and after and an established peer keeps exchanging; handshakes and exchanges must complete while stallers hold, each failed handshake yields exactly one AcceptFailed, Accepted events equal the well-behaved clients. Garbage at every offset, complete-but-invalid handshakes, a client stalling inside an announced 2^50-byte frame, 70..300 simultaneous stallers, strict rotation over exactly the admitted clients. Clients that are gone before accept() takes them from the backlog (TCP reset with SO_LINGER 0 or orderly close, with no await after connect) count as failed handshakes like any other. The monitor is installed before the bind, after it, or replaced after it. Complete-but-invalid handshakes include a READY with garbage after an intact Socket-Type property. A refused handshake (incompatible or unknown Socket-Type) may present the announced identity of the ESTABLISHED peer, which must stay registered and keep exchanging. After the failed handshakes the peer established before them is exchanged with once more.",
          "DESIGN.md §3 C20", "'Never completes' is a 5 s watchdog where ~1 ms is needed.",
          "fault enumeration (stall offset x action) on real transports + proptest; monitor-event and liveness oracle"),
 }
